@@ -97,9 +97,9 @@ class C06(runner.Check):
 			"generator (fault seam)", "caller thread (baton-passed: one runs at a time)"],
 	}
 	tiers = {
-		"quick": {"legs": [("clean", 500), ("faulty", 250)], "wall_cap_s": 900,
+		"quick": {"legs": [("clean", 1000), ("faulty", 500)], "wall_cap_s": 900,
 			"chunk": 10},
-		"thorough": {"legs": [("clean", 14000), ("faulty", 7000)], "wall_cap_s": 5400,
+		"thorough": {"legs": [("clean", 40000), ("faulty", 20000)], "wall_cap_s": 5400,
 			"chunk": 40},
 	}
 
